@@ -698,12 +698,7 @@ func (w *trWorld) update(rep *trReplica, cl trCall) {
 		c.Count("api:reference-checked")
 	}
 	if err != nil {
-		tag := w.trSymptoms()
-		if tag == "" && strings.Contains(err.Error(), "split offset out of range") && trHasSupplementary(refBefore) {
-			// the failing call dropped the clone that carried the stale length; the root never saw the call
-			tag = "KNOWN[c19-surrogate] "
-		}
-		c.Oracle("%supdate failed on %s (%s): %v", tag, rep.name, trEncCall(cl), err)
+		c.Oracle("%supdate failed on %s (%s): %v", w.trSymptoms(), rep.name, trEncCall(cl), err)
 		rep.failed = true
 		return
 	}
@@ -747,8 +742,8 @@ func (w *trWorld) indexPath(rep *trReplica, t *crdt.Tree, idx int) {
 					tag = "KNOWN[c19-path-mixed-content] "
 				}
 			}
-			if st := w.trSymptoms(); st != "" {
-				tag = st
+			if tag == "" {
+				tag = w.trSymptoms()
 			}
 			if trArg("orc", "") != "c01" {
 				c.Oracle("%sC07 index<->path on %s: index %d -> path %s -> index %d", tag, rep.name, idx, trEncPath(path), back)
@@ -1014,9 +1009,13 @@ func (w *trWorld) exec(line string) (err error) {
 
 // trSymptoms inspects the trees of every replica.
 //
-//	c19-surrogate             a text node whose cached VisibleLength differs from its UTF-16 length (SplitText stores
-//	                          len(leftRune), a RUNE count, for the left half), or a text node holding U+FFFD (no generated
-//	                          content contains it: SplitText cut a surrogate pair and re-decoded both halves)
+//	c19-surrogate-cut         a text node holding U+FFFD (no generated content contains it): an edit boundary between the two
+//	                          UTF-16 units of one supplementary-plane character made SplitText cut the pair, and both halves
+//	                          were re-decoded to U+FFFD for good (the tree counterpart of TextValue.Split)
+//
+// (c19-surrogate - SplitText stored a RUNE count as the left half's cached length - is repaired,
+// hooks/fix-c19-splittext-utf16-length.patch, 0e18e1d8: a text node whose cached length differs from its UTF-16 length, or an Update
+// failing with `split offset out of range`, is a plain violation now)
 //
 // (c19-stale-visible-length - a root whose cached VisibleLength differs from the size of its own visible XML after SplitElement of
 // a tombstoned element - is repaired, hooks/fix-c19-split-tombstoned-visible-length.patch, 7d079773: a recurrence is a plain violation)
@@ -1027,7 +1026,7 @@ func (w *trWorld) trSymptoms() string {
 			return
 		}
 		index.TraverseNode(t.Root().Index, func(node *index.Node[*crdt.TreeNode], _ int) {
-			if node.IsText() && (node.VisibleLength != node.Value.Length() || strings.ContainsRune(node.Value.Value, 0xFFFD)) {
+			if node.IsText() && strings.ContainsRune(node.Value.Value, 0xFFFD) {
 				surrogate = true
 			}
 		})
@@ -1041,7 +1040,7 @@ func (w *trWorld) trSymptoms() string {
 		})
 	}
 	if surrogate {
-		return "KNOWN[c19-surrogate] "
+		return "KNOWN[c19-surrogate-cut] "
 	}
 	return ""
 }
@@ -2226,7 +2225,7 @@ func runTreeRandom(c *Ctx) error {
 			c.Cmd("%s", l)
 			return w.exec(l)
 		}
-		// supplementary-plane characters (known finding c19-surrogate) in one trace out of five
+		// supplementary-plane characters in one trace out of five (an edit boundary inside a pair: listed finding c19-surrogate-cut)
 		trPoolN = len(trTextPool) - 2
 		if pool == "all" || (pool == "mixed" && r.Intn(5) == 0) {
 			trPoolN = len(trTextPool)
